@@ -25,6 +25,15 @@ theorem c11_source_shape :
     KG.Gen.C11.gatesSetOnDefaultCopy = true ∧ KG.Gen.C11.controllerAppliesListerObject = true := by
   decide
 
+/-- what the sequential controller model (`Ctl.step`: ONE delivery is handled at a time, from `lister.Get` to the end of
+    `Sync` and the re-keying) rests on: `Run` starts exactly one worker on the queue.  The queue is a passthrough queue —
+    its items are event-object pointers, so two versions of one cluster are two items, and a second worker would handle
+    them concurrently (`lister.Get` of version N, overtaken by N+1, then `Sync` N) — and `ClusterInfo.Sync` takes no lock
+    because it is documented as single threaded.  `c11_controller*` are statements about this one-worker gateway. -/
+theorem c11_single_worker :
+    KG.Gen.C11.queueWorkers = 1 ∧ KG.Gen.C11.syncDocumentedSingleThreaded = true := by
+  decide
+
 /-! ## one `ClusterInfo` -/
 
 /-- every history (successful, refused and half-applied syncs in any mix) leaves a consistent `ClusterInfo` of the
